@@ -22,6 +22,9 @@ REF = [
  ("mapping_iterative", ["C14", "C01"], A,
   "    autom->last_ts = now;\n    if (timeout) {\n        return switch_state_mapping(autom, input, \"timeout\");\n    }\n    return autom;\n}\n\nautomata *init_automata_enumeration",
   "    autom->last_ts = now;\n    if (timeout) {\n        /* after a timeout the automaton is idle and nothing else can fire in the same instant */\n        for (int i = 0; i < autom->transitions_no; i++) {\n            if (autom->current_state == autom->transitions_table[i].from &&\n                autom->transitions_table[i].with == input) {\n                autom->current_state = autom->transitions_table[i].to;\n            }\n        }\n    }\n    return autom;\n}\n\nautomata *init_automata_enumeration"),
+ ("reset_keeps_seq_and_gens", ["C09", "C05", "C02"], B,
+  "                    st->mapper_known = 0;\n                    st->mapper_seq = 0;\n                    st->mapper_gen_topology = 0;\n                    st->mapper_gen_quick = 0;",
+  "                    st->mapper_known = 0;"),
  ("query_set_mapper_after", ["C07", "C05", "C02"], B,
   "    st->mapper_seq = lltd_ntohs(inHeader->seqNumber);\n    st->mapper_real = inHeader->realSource;\n    st->mapper_apparent = inHeader->frameHeader.source;\n    st->mapper_known = 1;\n\n    size_t mtu = 0;",
   "    st->mapper_known = 1;\n    st->mapper_apparent = inHeader->frameHeader.source;\n    st->mapper_real = inHeader->realSource;\n    st->mapper_seq = lltd_ntohs(inHeader->seqNumber);\n\n    size_t mtu = 0;"),
